@@ -277,7 +277,8 @@ application's reads drive it.  `Rcvr` adds what else can happen to a receiving h
 * reads after a reset: `Err(Reset)`.
 
 `rfix = true`: `Recv::recv_reset` additionally refuses a final size beyond `max_stream_data`
-(FLOW_CONTROL_ERROR) — NOT what the current tree does (`rfix = false`). -/
+(FLOW_CONTROL_ERROR) — the current tree (fix-C11-reset-limit); `rfix = false` is the tree before that fix,
+kept to state what the fix excludes. -/
 
 structure Rcvr where
   half : RecvHalf
